@@ -24,6 +24,7 @@ def run(rep, tier):
 
     def extra(rep_, prog):
         c12.check_comparators(rep_, prog)
+        c12.check_first_in_path(rep_, prog)
         search.check_relaxation(rep_, prog)
         search.check_pruning(rep_, prog)
     c01.run_rules(rep, tier, RULES, c01.DOCS, extra=extra)
@@ -31,4 +32,5 @@ def run(rep, tier):
     rep.rule('R02i', 'pruning / stopping / best-update conditions of the bidirectional search are sound', floor=5)
     c01.search_positive(rep, ('R02h', 'R02i'))
     rep.rule('R12a', 'lexicographic comparator rungs are consistent', floor=1)
+    rep.rule('R12b', 'every visited tree node (root included) gets the first-in-path label the candidate filter compares (a wrongly discarded candidate makes the tree variants return a heavier basis)', floor=1)
     rep.note('NOT claimed: that each phase finds a minimum-weight odd cycle; optimality of the basis')
